@@ -102,11 +102,38 @@ def mk_vfilter(w, g):
     return lambda v: w.n_obj(v) in V
 
 
+class Hang(Exception):
+    """a query that does not come back (the properties say every traversal terminates)"""
+
+
+_HANGS = [0]
+
+
+def _on_alarm(signum, frame):
+    raise Hang()
+
+
 def call(fn):
+    """run one query; a call that does not return within the watchdog's time is reported as the outcome 'Hang'
+    (generous for the first ones, short once this process has seen some: every later probe of a looping function would
+    otherwise wait in turn).  Only in a main thread (the worker processes' and the replay's)."""
+    import signal
+    import threading
+    armed = threading.current_thread() is threading.main_thread()
+    if armed:
+        old = signal.signal(signal.SIGALRM, _on_alarm)
+        signal.alarm(60 if _HANGS[0] < 2 else 2)
     try:
         return {"err": "", "out": fn()}
+    except Hang:
+        _HANGS[0] += 1
+        return {"err": "Hang", "out": []}
     except Exception as exc:
         return {"err": type(exc).__name__, "out": []}
+    finally:
+        if armed:
+            signal.alarm(0)
+            signal.signal(signal.SIGALRM, old)
 
 
 def qdom(S, v):
